@@ -57,7 +57,7 @@ def plan(quick):
     def ks(fam, D, init="empty", via="direct"):
         return dict(mod="MC_KeyStore", which="ks", fam=fam, D=D, init=init, via=via)
 
-    def st(fam, D, wide=False):
+    def st(fam, D, wide="std"):
         return dict(mod="MC_Stats", which="st", fam=fam, D=D, wide=wide, workers=2 if fam == "met" else 1)
     if quick:
         return [ks("api", 3), ks("api", 2, "new"), ks("api", 3, via="custom"), ks("api", 2, via="trait"), ks("api", 2, via="unified"),
@@ -65,7 +65,8 @@ def plan(quick):
                 st("met", 3), st("merge", 2), st("opm", 3), st("mls", 3), st("sm", 3), st("pm", 3), st("exp", 3)]
     return [ks("api", 4), ks("api", 4, "new"), ks("api", 4, via="custom"), ks("api", 3, via="trait"), ks("api", 3, via="unified"),
             ks("api", 3, "new", "nested"), ks("api", 3, "new", "unified"), ks("csv", 3), ks("txt", 3), ks("kr", 4),
-            st("met", 4), st("merge", 2, True), st("opm", 4), st("mls", 3, True), st("sm", 4), st("pm", 4, True), st("exp", 4)]
+            st("met", 4, "core"), st("met", 3, "wide"), st("merge", 2, "wide"), st("opm", 4), st("mls", 3, "wide"), st("sm", 4, "core"),
+            st("sm", 3), st("pm", 4), st("pm", 3, "wide"), st("exp", 4)]
 
 
 def tag_of(c):
@@ -80,7 +81,7 @@ def mc_one(ctx, c):
                       "MCInit", "MCNext", constraints=["Constr"],
                       invariants=["MapLaws", "MapRoundTrip", "NewKeepsBuiltIns", "Emit"])
     else:
-        lib.write_cfg(cfg, {"Family": f'"{c["fam"]}"', "D": c["D"], "Wide": "TRUE" if c["wide"] else "FALSE", "Variant": '"ideal"'},
+        lib.write_cfg(cfg, {"Family": f'"{c["fam"]}"', "D": c["D"],  "Wide": f'"{c["wide"]}"', "Variant": '"ideal"'},
                       "MCInit", "MCNext", constraints=["Constr"],
                       invariants=["InRange", "MaxDominates", "HitsPlusMisses", "LastStep", "Balanced", "MergeLaws", "Emit"])
     progs = ctx.path(f"prog_{tag}.ndjson")
@@ -95,7 +96,7 @@ def model_refutation(ctx):
     """Anti-vacuity of the design invariants: with modular gauges (the arithmetic before the saturating fix) TLC must
     refute them."""
     cfg = ctx.path("mc_wrap.cfg")
-    lib.write_cfg(cfg, {"Family": '"met"', "D": 2, "Wide": "FALSE", "Variant": '"wrap"'}, "MCInit", "MCNext", constraints=["Constr"],
+    lib.write_cfg(cfg, {"Family": '"met"', "D": 2, "Wide": '"std"', "Variant": '"wrap"'}, "MCInit", "MCNext", constraints=["Constr"],
                   invariants=["MaxDominates", "LastStep"])
     r = lib.tlc(ctx, "MC_Stats", cfg, timeout=600, workers=1, heap="2g", expect_violation=True)
     ok = bool(r["invariant_violated"])
@@ -322,11 +323,11 @@ def run(ctx):
     distinct = 0
     traces = {}
     kds = {"ks": kd_ks, "st": kd_st}
-    half = max(1, lib.NCPU // 2)
+    share = {w: max(1, round(lib.NCPU * counts[w] / max(1, counts["ks"] + counts["st"]))) for w in ("ks", "st")}
 
     def main_one(which):
         return run_and_judge(ctx, which, files[which], counts[which], f"{'MC_KeyStore' if which == 'ks' else 'MC_Stats'} (all families)",
-                             kds[which], totals, parallel=half)
+                             kds[which], totals, parallel=share[which], target_chunks=8 if ctx.quick else 24)
     todo = [w for w in ("ks", "st") if counts[w]]
     with ThreadPoolExecutor(max_workers=2) as ex:
         done = list(ex.map(main_one, todo))
